@@ -87,13 +87,14 @@ def quiet():
 
 @contextlib.contextmanager
 def capture():
-    out = sys.stdout
+    out, err = sys.stdout, sys.stderr
     buf = io.StringIO()
     sys.stdout = buf
+    sys.stderr = _Null()
     try:
         yield buf
     finally:
-        sys.stdout = out
+        sys.stdout, sys.stderr = out, err
 
 
 _scratch = None
